@@ -1,5 +1,6 @@
 import AgModel.Proofs.ProgressCluster
 import AgModel.Proofs.ProgressSkip
+import AgModel.Proofs.ProgressOrder
 import AgModel.Proofs.ClusterDec
 /-!
 # C02 — progress of the cluster of executable model nodes under timely delivery
@@ -329,6 +330,56 @@ theorem timely_progress (c : Cfg) (hpos : 0 < c.stakes.sum) (hi : Nat) (h60 : 3 
       · intro i hd; rw [run_append]; exact b2 i (a2 i hd)
       · intro b hb i hi'
         exact (b3 b hb i hi').append_right
+
+/-! ## Stage C (partial) — the order of deliveries
+
+The full statement — *every* `Valid` run segment that contains the deliveries of the timely schedule in any interleaving, with
+arbitrary additional Byzantine votes / certificates and duplicated or reordered deliveries mixed in, no timeout for the slots of
+the window, all correct queues drained at the end, finalizes the block — is **not** proved. Proved (`…_partial`):
+
+* the nodes are independent (`run_congr_proj`): any interleaving *between* nodes of the same per-node sequences reaches the
+  same state — the nodes need not run in lock-step with each other;
+* at each node the votes of a round may arrive from the senders in **any order**, a different one at every node, and any
+  number of **surplus pumps** is harmless; what the nodes of Byzantine validators receive is arbitrary.
+
+Missing: votes / certificates that are not part of the schedule mixed in (Byzantine votes for other blocks, received
+certificates), duplicates other than the re-delivered notarization votes of round 2, votes of round 2 overtaking the pumps of
+round 1 at a node. -/
+
+/-- the operations of one slot at one node: block, pumps, the notarization votes in the order `L1`, pumps, notarization and
+    finalization votes in the order `L2`, pumps -/
+def slotOps (c : Cfg) (b : Nat × Nat) (L1 L2 : List Nat) (m0 m1 m2 : Nat) : List NodeOp :=
+  blockOps c b ++ List.replicate m0 .pump ++ L1.map (fun j => NodeOp.recvVote ⟨.notar, b.1, b.2, j⟩) ++
+    List.replicate m1 .pump ++
+    L2.flatMap (fun j => [NodeOp.recvVote ⟨.notar, b.1, b.2, j⟩, NodeOp.recvVote ⟨.final, b.1, 0, j⟩]) ++ List.replicate m2 .pump
+
+/-- **`timely_finalization` for every interleaving that keeps the per-node order of the phases** — `_partial`, see above: for
+    every run `evs` (no validity hypothesis is needed for the conclusion) whose projection to each correct node `i` is
+    `slotOps` for some orders `L1 i`, `L2 i` of the correct validators and pump counts `m1 ≥ 4`, `m2 ≥ 1` (the queue of a
+    round never holds more), whatever `evs` does at the nodes of Byzantine validators: every correct pool reports `(s, h)`
+    finalized and every correct node is ready for slot `s + 1`. -/
+theorem timely_finalization_interleaved_partial (c : Cfg) (hpos : 0 < c.stakes.sum) (hi s h : Nat) (p : Nat × Nat) (st : State)
+    (hs : s ≤ hi) (hr : CReady c hi s p st) (hp : c.parentOf (s, h) = p) (h60 : 3 * c.stakes.sum ≤ 5 * correctStake c)
+    (evs : List Ev)
+    (hshape : ∀ i ∈ correctIds c, ∃ L1 L2 m0 m1 m2, L1.Perm (correctIds c) ∧ L2.Perm (correctIds c) ∧ 4 ≤ m1 ∧ 1 ≤ m2 ∧
+      proj i evs = slotOps c (s, h) L1 L2 m0 m1 m2) :
+    (∀ i ∈ correctIds c, PoolFinalized (run st evs) i (Blk.mk' s h)) ∧ CReady c hi (s + 1) (s, h) (run st evs) := by
+  have hq : (c.epoch 0).isQuorum (stakeOf (c.epoch 0) (correctIds c)) = true := (cQuorum_iff c).mpr h60
+  have key : ∀ i ∈ correctIds c, NReady (c.epoch i) hi (s + 1) (s, h) (run st evs i) ∧
+      ∃ a x, (run st evs i).pool.getSlot s = some a ∧ a.cFin.isSome = true ∧ a.cNotar = some x ∧ x.hash = h := by
+    intro i hi'
+    obtain ⟨L1, L2, m0, m1, m2, p1, p2, hm1, hm2, hproj⟩ := hshape i hi'
+    rw [run_proj, hproj]
+    have hb : blockOps c (s, h) = [.poolBlock (s, h) p, .votorBlock s ⟨h, p.1, p.2⟩] := by unfold blockOps; rw [hp]
+    unfold slotOps
+    rw [hb]
+    exact node_slot_any_order (e := c.epoch i) (by exact hpos) hs (hr i hi') (correctIds c) L1 L2 (correctIds_nodup c)
+      (fun j hj => (mem_correctIds.mp hj).1) p1 p2 hq m0 m1 m2 hm1 hm2
+  refine ⟨?_, fun i hi' => (key i hi').1⟩
+  intro i hi'
+  obtain ⟨_, a, x, hg, hf, hx, hxh⟩ := key i hi'
+  have hs0 : s ≠ 0 := by have := (hr i hi').trk.plt; omega
+  exact ⟨a, by rw [Blk.mk'_slot]; exact hg, Or.inr ⟨hf, x, hx, by rw [Blk.mk'_hash _ _ hs0]; exact hxh⟩⟩
 
 /-! ## non-vacuity, and the necessity of the hypotheses -/
 namespace Progress
